@@ -238,7 +238,9 @@ class ParallelScheduler(RunScheduler):
     def _number_of_threads(self):
         # TODO: read the configuration elements!
         non_interference_factor = float(2.5)
-        return int(floor(cpu_count() / non_interference_factor))
+        # at least one worker: with two cores the division gives 0 threads,
+        # and the non-exclusive runs would never be executed
+        return max(1, int(floor(cpu_count() / non_interference_factor)))
 
     @staticmethod
     def _split_runs(runs):
